@@ -139,7 +139,7 @@ def _kernel_cases(tier):
                     continue
                 for order in ("sorted", "unsorted") if n > 1 else ("sorted",):
                     for v in range(nvals):
-                        out.append({"kind": "kernel", "kernel": kern, "supports": list(idx), "order": order, "values": v})
+                        out.append({"kind": "kernel", "kernel": kern, "supports": list(idx), "order": order, "values": v, "tier": tier})
     return out, skipped
 
 
@@ -827,7 +827,9 @@ def _run_kernel(case, r):
     Q = _query_points()
     assert Q.shape == (36, 3)
     signals = {2: Q, 3: Q.reshape(4, 9, 3)}
-    singles = [np.array(s, dtype=float) for s in sup] + [Q[13], Q[30]]
+    singles = [np.array(sup[0], dtype=float), Q[13]] + [np.array(s, dtype=float) for s in sup[1:]] + [Q[30]]
+    thorough = case["tier"] == "thorough"
+    n_single = len(singles) if thorough else 2
 
     def reference(kern_, sup_, vals_):
         w = np.linalg.solve(_kmatrix(kern_, sup_), np.array(vals_, dtype=float))
@@ -841,20 +843,26 @@ def _run_kernel(case, r):
             return None
         return np.asarray(out, dtype=float)
 
-    def compare(cell_rep, cell_acc, model, kern_, sup_, vals_, **info):
+    def compare(cell_rep, cell_acc, model, kern_, sup_, vals_, ranks, nsingles, **info):
         """Reproduction at the supports (as given by the user, in the user's order) and
-        agreement with the float64 interpolant on every signal rank."""
+        agreement with the float64 interpolant on the requested signal ranks."""
         w, f = reference(kern_, sup_, vals_)
         tol = 1e-4 * (1.0 + float(np.sum(np.abs(w))))
-        got = evaluate(cell_rep, model, np.array(sup_))
-        if got is not None:
-            r.check(got.shape == (len(sup_),) and np.allclose(got, vals_, rtol=0, atol=tol), cell_rep, "the interpolation reproduces the prescribed value at every support point", kernel=kern_, supports=sup_, values=vals_, got=got, **info)
-        for rank, x in signals.items():
-            got = evaluate(cell_acc.format(rank=rank), model, x)
+        ns = len(sup_)
+        # one pixel list: the supports followed by the query points
+        x = np.vstack([np.array(sup_, dtype=float), Q])
+        got = evaluate(cell_rep, model, x)
+        if got is not None and r.check(got.shape == (ns + len(Q),), cell_rep, "a pixel list (N, 3) gives N values", got=list(got.shape)):
+            r.check(np.allclose(got[:ns], vals_, rtol=0, atol=tol), cell_rep, "the interpolation reproduces the prescribed value at every support point", kernel=kern_, supports=sup_, values=vals_, got=got[:ns], **info)
+            want = f(x)
+            r.check(np.allclose(got, want, rtol=0, atol=tol), cell_acc.format(rank=2), "model(signal) equals the plain kernel sum of the float64 interpolant", kernel=kern_, supports=sup_, values=vals_, got=got, want=want, **info)
+        if 3 in ranks:
+            x = signals[3]
+            got = evaluate(cell_acc.format(rank=3), model, x)
             if got is not None:
                 want = f(x)
-                r.check(got.shape == want.shape and np.allclose(got, want, rtol=0, atol=tol), cell_acc.format(rank=rank), "model(signal) equals the plain kernel sum of the float64 interpolant", kernel=kern_, supports=sup_, values=vals_, got=got, want=want, **info)
-        for x in singles:
+                r.check(got.shape == want.shape and np.allclose(got, want, rtol=0, atol=tol), cell_acc.format(rank=3), "model(signal) equals the plain kernel sum of the float64 interpolant", kernel=kern_, supports=sup_, values=vals_, got=got, want=want, **info)
+        for x in singles[:nsingles]:
             got = evaluate(cell_acc.format(rank=1), model, x)
             if got is not None:
                 want = f(x)
@@ -863,13 +871,13 @@ def _run_kernel(case, r):
 
     # ---- construction, reproduction, accelerated evaluation through the model
     model = darsia.KernelInterpolation(_kernel_obj(kern), np.array(sup), np.array(vals))
-    w = compare(f"C14/kernel/reproduce/{kname}/order={order}", f"C14/kernel/accelerated/{kname}/rank={{rank}}", model, kern, sup, vals)
+    w = compare(f"C14/kernel/reproduce/{kname}/order={order}", f"C14/kernel/accelerated/{kname}/rank={{rank}}", model, kern, sup, vals, (2, 3), n_single)
     # ---- accelerated linear combination against the plain sum (DarSIA's own and the reference), arbitrary weights
     kobj = _kernel_obj(kern)
     sup32 = np.array(sup, dtype=np.float32)
     w32 = np.array(KW[:n], dtype=np.float32)
     tol = 1e-4 * (1.0 + float(np.sum(np.abs(w32))))
-    for rank, x in list(signals.items()) + [(1, s) for s in singles]:
+    for rank, x in list(signals.items()) + [(1, s) for s in singles[: n_single - 1]]:
         cell = f"C14/kernel/accelerated/{kname}/rank={rank}"
         x32 = np.array(x, dtype=np.float32)
         try:
@@ -903,7 +911,7 @@ def _run_kernel(case, r):
         except Exception as e:
             r.fail(cell, "every subset of updatable parameters can be addressed", dofs=dofs, exception=f"{type(e).__name__}: {e}")
             continue
-        compare(cell, cell, model, new_kern if with_kernel else kern, sup, new_vals if with_values else vals, dofs=dofs, start_kernel=kern, start_values=vals)
+        compare(cell, cell, model, new_kern if with_kernel else kern, sup, new_vals if with_values else vals, (2, 3) if thorough else (2,), 1 if thorough else 0, dofs=dofs, start_kernel=kern, start_values=vals)
     r.outcome(("kernel", case, np.round(w, 4).tolist()))
 
 
